@@ -74,7 +74,8 @@ theorem genLoop_list (g : Game P Gen.Move) (hEq : g.moveEq = Gen.moveEqual) (cfg
     have gd : ms.getD j default = ms[j] := by simp [Array.getD_eq_getD_getElem?, h]
     have pvg : (Int.ofNat mg.pv.toArray.size != 0 && !decide (0 < mg.pv.toArray.size)) = false := by cases mg.pv <;> simp
     have plyg : (!(decide (0 ≤ (mg.ply : Int)) && decide ((mg.ply : Int) < 15))) = false := by simp; omega
-    simp only [dif_pos h, c1, c2, pvg, plyg, teEq_gen g hEq, pvEq_gen g hEq, Bool.false_eq_true, if_false]
+    have teg : (!mg.te.isNone && mg.te.isNone) = false := by cases mg.te.isNone <;> rfl
+    simp only [dif_pos h, c1, c2, pvg, plyg, teg, teEq_gen g hEq, pvEq_gen g hEq, Bool.false_eq_true, if_false]
     unfold skipGen applyOracle
     rw [hEq]
     cases mg.teEq g ms[j] <;> cases mg.pvEq g ms[j] <;> cases Gen.moveEqual r ms[j] <;> simp
